@@ -68,7 +68,7 @@ pub fn scenario(ch: &mut Chooser, thorough: bool) -> Exec {
     let chunks: Vec<usize> = ch.of("chunking", chunkings).to_vec();
     let try_write = ch.flag("writer_uses_try_write");
     let close = *ch.of("close", &[Close::Shutdown, Close::Drop, Close::Keep]);
-    let rpats: &[&[Rd]] = &[&[Rd::Read(8)], &[Rd::Read(1)], &[Rd::Peek(2), Rd::Read(1)], &[Rd::Read(0), Rd::Read(2)]];
+    let rpats: &[&[Rd]] = &[&[Rd::Read(8)], &[Rd::Read(1)], &[Rd::Peek(2), Rd::Read(1)], &[Rd::Read(0), Rd::Read(2)], &[Rd::Read(1), Rd::Read(0)]];
     let rpat: Vec<Rd> = ch.of("reader_buffers", rpats).to_vec();
     let topos: &[Topo] = if thorough { &[Topo::RemoteV4, Topo::RemoteV6, Topo::OwnAddr, Topo::Localhost] } else { &[Topo::RemoteV4, Topo::Localhost, Topo::RemoteV6] };
     let topo = *ch.of("topology", topos);
@@ -77,6 +77,11 @@ pub fn scenario(ch: &mut Chooser, thorough: bool) -> Exec {
     // half close in the other direction first: the reading side shuts down its own write
     // half right after accept (its FIN sits unread at the writer)
     let reader_half_closes = ch.flag("reader_shuts_down_its_write_side_first");
+    // the reading side sends one byte that the writer never reads: a later drop of the
+    // writer's stream is then abortive (RST), which may end the stream early but must not
+    // hand the reader anything that is not a prefix
+    let reader_sends_byte = ch.flag("reader_sends_one_unread_byte_first");
+    let abortive_possible = reader_sends_byte && close == Close::Drop;
 
     let mut b = builder(1);
     b.tcp_capacity(cap);
@@ -95,6 +100,9 @@ pub fn scenario(ch: &mut Chooser, thorough: bool) -> Exec {
         let l = if v6 { TcpListener::bind(("::", 80)).await? } else { TcpListener::bind(("0.0.0.0", 80)).await? };
         let (s, _peer) = l.accept().await?;
         let mut s = s;
+        if reader_sends_byte {
+            let _ = s.write_all(&[0x55]).await;
+        }
         if reader_half_closes {
             let _ = s.shutdown().await;
         }
@@ -365,7 +373,8 @@ pub fn scenario(ch: &mut Chooser, thorough: bool) -> Exec {
     if g.would_block > 0 {
         feats.push("would-block");
     }
-    if violation.is_none() {
+    let reset_after_abortive_drop = abortive_possible && g.r_err.as_deref() == Some("ConnectionReset");
+    if violation.is_none() && !reset_after_abortive_drop {
         // liveness after the fair suffix (link healthy = every held message delivered FIFO)
         let total: usize = chunks.iter().sum();
         let mut why = vec![];
@@ -399,7 +408,7 @@ pub fn scenario(ch: &mut Chooser, thorough: bool) -> Exec {
     if let Some(v) = violation.as_mut() {
         v.sig = format!("{}|close={:?}|cap={}|late={}", v.clause, close, cap, delay > 0);
         v.scenario = format!(
-            "tier={} cap={cap} chunks={chunks:?} try_write={try_write} close={close:?} reader={rpat:?} topo={topo:?} split={split} reader_start={delay} reader_half_closes={reader_half_closes}",
+            "tier={} cap={cap} chunks={chunks:?} try_write={try_write} close={close:?} reader={rpat:?} topo={topo:?} split={split} reader_start={delay} reader_half_closes={reader_half_closes} reader_sends_byte={reader_sends_byte}",
             if thorough { "thorough" } else { "quick" }
         );
         v.actions = obs.clone();
